@@ -27,6 +27,7 @@ EXPLANATION = (
     "idioms: `if not lo <= x < hi: raise`, `if x < lo or x > hi: raise`, assert forms, a guard in a validator called on the path, "
     "__post_init__ of a frozen dataclass, and the struct constructor's read-back test `getattr(self, name) != value -> raise` over "
     "its keyword arguments (full for any integer field) when the value is passed by keyword."
+    ' Every scalar field of a command struct must receive its value from a named (keyword or plain positional) argument: starred or ** arguments hide the source and bypass the keyword-only read-back guard.'
 )
 LEVEL_TEXT = (
     "Static analysis, full: all narrow sinks at the encode boundary (enumerated from the source, floor 17) are proven to be "
